@@ -51,7 +51,7 @@ static const uint8_t SF_INV[SFN] = {
 	SF_I16(0), SF_I16(16)
 #endif
 };
-static inline sf sf_mul(sf a, sf b) { return SF_MUL[(uint8_t)(((a << SFK) | b) & (SFN * SFN - 1))]; }
+static inline sf sf_mul(sf a, sf b) { return SF_MUL[(uint16_t)((((unsigned)a << SFK) | b) & (SFN * SFN - 1))]; }
 static inline sf sf_inv(sf a) { return SF_INV[(uint8_t)(a & (SFN - 1))]; }
 static inline sf sf_add(sf a, sf b) { unsigned s = (unsigned)a + b; return (sf)(s >= PF ? s - PF : s); }
 static inline sf sf_sub(sf a, sf b) { return (sf)(a >= b ? a - b : a + PF - b); }
